@@ -183,6 +183,17 @@ void run_export_case(const json& c, const std::string& workdir, std::vector<json
             bps_json.push_back(op.at("bp"));
             e["ret"] = x->add_block_parameters(bp);
         });
+        else if (o == "edithints") logged(log, i, "edithints", [&](json& e) {
+            BlockParameters& bp = x->get_active_block_parameters_ref();
+            auto& h = bp.storage_parameters.storage_hints;
+            if (op.contains("qrh")) h.query_response_hints = op["qrh"].get<uint32_t>();
+            if (op.contains("sigh")) h.query_response_signature_hints = op["sigh"].get<uint32_t>();
+            if (op.contains("rrh")) h.rr_hints = op["rrh"].get<uint8_t>();
+            if (op.contains("oth")) h.other_data_hints = op["oth"].get<uint8_t>();
+            json& bj = bps_json.at(x->get_active_block_parameters());
+            for (const char* k : {"qrh", "sigh", "rrh", "oth"}) if (op.contains(k)) bj[k] = op[k];
+            e["ret"] = 0;
+        });
         else if (o == "counters") logged(log, i, "counters", [&](json& e) {
             e["items"] = x->get_block_item_count(); e["qr"] = x->get_block_qr_count(); e["aec"] = x->get_block_aec_count();
             e["mm"] = x->get_block_mm_count(); e["blocks"] = x->get_blocks_written_count(); e["active"] = x->get_active_block_parameters();
